@@ -104,11 +104,15 @@ def doU : P String := do
     let resid := maxAbs ((R.mul R.transpose).sub S)
     let residL := maxAbs ((Gen.VariationalAlgebra.uSolveMat e).sub (Gen.VariationalAlgebra.uCholArg e))
     let tv := unwhitenedTrainVar Kzx Kxx Ki R
+    -- the TRAINING-mode branch as generated from the source: mean and the diagonal of its covariance
+    let tcov := Gen.VariationalAlgebra.uTrainCov e
+    let tvGen : Fin n → Rat := fun i => tcov.toMatrix i i
     let dc := m.sub (Gen.VariationalAlgebra.uPriorMean e)
     pure <| reply [sh code.mean, sh code.cov, sh cf.mean, sh cf.cov, shS resid, shV tv,
       shS (klRat Pi S d), shO (if hasS = 1 then det? S else none), shO (det? Pr), shS (quadForm Pi d),
       shS (klRat Pci S dc), shO (det? Pc), shS (quadForm Pci dc), shS residL,
-      shS (Gen.VariationalAlgebra.uPriorJitter e - Gen.VariationalAlgebra.uForwardJitter e)]
+      shS (Gen.VariationalAlgebra.uPriorJitter e - Gen.VariationalAlgebra.uForwardJitter e),
+      shV tvGen, sh (Gen.VariationalAlgebra.uTrainMean e)]
   | _, _, _, _ => pure "fail singular"
 
 /-- generic KL parts of `N(m,S)` (or a point mass at `m`) against `N(μ, P)` -/
@@ -151,6 +155,47 @@ def doI : P String := do
   let q := interpFwd W m S
   pure <| reply [sh q.mean, sh q.cov]
 
+/-- grid interpolation through the GENERATED definitions (`gMean`, `gCov`, `gPriorMean`, `gPriorCov`).
+`IG n M W m S Kzz mZ ε εd`. -/
+def doIG : P String := do
+  let n ← popNat; let M ← popNat
+  let W ← popMat n M; let m ← popMat M 1; let S ← popMat M M; let Kzz ← popMat M M; let mZ ← popMat M 1
+  let ε ← popRat; let εd ← popRat
+  let e : Gen.VariationalAlgebra.EnvGrid M n Rat := { W := W, m := m, S := S, Kzz := Kzz, mZ := mZ, ε := ε, εd := εd }
+  pure <| reply [sh (Gen.VariationalAlgebra.gMean e), sh (Gen.VariationalAlgebra.gCov e),
+    sh (Gen.VariationalAlgebra.gPriorMean e), sh (Gen.VariationalAlgebra.gPriorCov e)]
+
+/-- batch-decoupled strategy through the GENERATED definitions (`bdMean`, `bdCov`, `bdCholArg0/1`).
+`BD M n Kzz0 Kzz1 Kzx0 Kzx1 Kxx0 Kxx1 mX0 mX1 ε L0 L1 m S`. -/
+def doBD : P String := do
+  let M ← popNat; let n ← popNat
+  let Kzz0 ← popMat M M; let Kzz1 ← popMat M M; let Kzx0 ← popMat M n; let Kzx1 ← popMat M n
+  let Kxx0 ← popMat n n; let Kxx1 ← popMat n n; let mX0 ← popMat n 1; let mX1 ← popMat n 1
+  let ε ← popRat
+  let L0 ← popMat M M; let L1 ← popMat M M; let m ← popMat M 1; let S ← popMat M M
+  match inv? L0, inv? L1 with
+  | some Li0, some Li1 =>
+    let e : Gen.VariationalAlgebra.EnvBD M n Rat :=
+      { Kzz0 := Kzz0, Kzz1 := Kzz1, Kzx0 := Kzx0, Kzx1 := Kzx1, Kxx0 := Kxx0, Kxx1 := Kxx1, mX0 := mX0, mX1 := mX1,
+        L0 := L0, L1 := L1, Li0 := Li0, Li1 := Li1, m := m, S := S, ε := ε }
+    pure <| reply [sh (Gen.VariationalAlgebra.bdMean e), sh (Gen.VariationalAlgebra.bdCov e),
+      shS (maxAbs ((L0.mul L0.transpose).sub (Gen.VariationalAlgebra.bdCholArg0 e))),
+      shS (maxAbs ((L1.mul L1.transpose).sub (Gen.VariationalAlgebra.bdCholArg1 e)))]
+  | _, _ => pure "fail singular"
+
+/-- orthogonally decoupled strategy through the GENERATED definitions (`oMean`, `oCov`, `oKLEval`, `oKLTrain`, priors).
+`OG n M μx μz Cxx Cxz Czz ε m`; the KL terms are reported with base KL `0`. -/
+def doOG : P String := do
+  let n ← popNat; let M ← popNat
+  let μx ← popMat n 1; let μz ← popMat M 1; let Cxx ← popMat n n; let Cxz ← popMat n M; let Czz ← popMat M M
+  let ε ← popRat; let m ← popMat M 1
+  let e : Gen.VariationalAlgebra.EnvOrth M n Rat :=
+    { μx := μx, μz := μz, Cxx := Cxx, Cxz := Cxz, Czz := Czz, m := m, ε := ε }
+  pure <| reply [sh (Gen.VariationalAlgebra.oMean e), sh (Gen.VariationalAlgebra.oCov e),
+    shS (Gen.VariationalAlgebra.oKLEval e 0), shS (Gen.VariationalAlgebra.oKLTrain e 0),
+    sh (Gen.VariationalAlgebra.oPriorMean e), sh (Gen.VariationalAlgebra.oPriorCov e),
+    sh (Gen.VariationalAlgebra.oTrainPriorCov e)]
+
 def doO : P String := do
   let n ← popNat; let M ← popNat
   let μx ← popMat n 1; let Cxx ← popMat n n; let Cxz ← popMat n M; let Czz ← popMat M M
@@ -188,7 +233,7 @@ def step (line : String) : String :=
     let p : Option (P String) := match kind with
       | "W" => some doW | "U" => some doU | "DC" => some doDC | "DM" => some doDM | "DN" => some doDN
       | "DT" => some doDT | "I" => some doI | "O" => some doO | "L" => some doL | "LI" => some doLI
-      | "IN" => some doIN | "K" => some doK | _ => none
+      | "IN" => some doIN | "K" => some doK | "IG" => some doIG | "BD" => some doBD | "OG" => some doOG | _ => none
     match p with
     | some p => match p.run rest with
       | some (s, []) => s
